@@ -15,7 +15,6 @@ theorem fromBE_be : ∀ (k n : Nat), fromBE (be k n) = n % 256 ^ k
     rw [be, fromBE_append_one, fromBE_be k]
     have h : (UInt8.ofNat (n % 256)).toNat = n % 256 := by
       simp [UInt8.toNat_ofNat']
-      omega
     rw [h, Nat.pow_succ, Nat.mul_comm (256 ^ k) 256, Nat.mod_mul]
     omega
 
@@ -47,8 +46,9 @@ theorem decodeHead_head (m n : Nat) (rest : Bytes) (hm : m < 8) (hn : n < 184467
       have e1 : (m * 32 + 24) / 32 = m := by omega
       have e2 : (m * 32 + 24) % 32 = 24 := by omega
       simp only [e1, e2]
-      rw [takeN_append' _ _ _ (be_length 1 n), fromBE_be]
-      simp
+      have ht := takeN_append' (be 1 n) rest 1 (be_length 1 n)
+      have hb := fromBE_be 1 n
+      simp [ht, hb]
       omega
     · by_cases h3 : n < 65536
       · refine ⟨25, ?_, by omega⟩
@@ -57,8 +57,9 @@ theorem decodeHead_head (m n : Nat) (rest : Bytes) (hm : m < 8) (hn : n < 184467
         have e1 : (m * 32 + 25) / 32 = m := by omega
         have e2 : (m * 32 + 25) % 32 = 25 := by omega
         simp only [e1, e2]
-        rw [takeN_append' _ _ _ (be_length 2 n), fromBE_be]
-        simp
+        have ht := takeN_append' (be 2 n) rest 2 (be_length 2 n)
+        have hb := fromBE_be 2 n
+        simp [ht, hb]
         omega
       · by_cases h4 : n < 4294967296
         · refine ⟨26, ?_, by omega⟩
@@ -67,8 +68,9 @@ theorem decodeHead_head (m n : Nat) (rest : Bytes) (hm : m < 8) (hn : n < 184467
           have e1 : (m * 32 + 26) / 32 = m := by omega
           have e2 : (m * 32 + 26) % 32 = 26 := by omega
           simp only [e1, e2]
-          rw [takeN_append' _ _ _ (be_length 4 n), fromBE_be]
-          simp
+          have ht := takeN_append' (be 4 n) rest 4 (be_length 4 n)
+          have hb := fromBE_be 4 n
+          simp [ht, hb]
           omega
         · refine ⟨27, ?_, by omega⟩
           simp only [h1, h2, h3, h4, if_true, if_false, List.cons_append, decodeHead]
@@ -76,8 +78,9 @@ theorem decodeHead_head (m n : Nat) (rest : Bytes) (hm : m < 8) (hn : n < 184467
           have e1 : (m * 32 + 27) / 32 = m := by omega
           have e2 : (m * 32 + 27) % 32 = 27 := by omega
           simp only [e1, e2]
-          rw [takeN_append' _ _ _ (be_length 8 n), fromBE_be]
-          simp
+          have ht := takeN_append' (be 8 n) rest 8 (be_length 8 n)
+          have hb := fromBE_be 8 n
+          simp [ht, hb]
           omega
 
 end Juno.C07
